@@ -864,7 +864,7 @@ class C20Engine(_EPBase):
         except (ValueError, NotImplementedError) as e:
             res["stats"]["api_not_accepted"] += 1
             log.add("API-REJECT", type(e).__name__)
-        except (AssertionError, FloatingPointError, ZeroDivisionError) as e:
+        except Exception as e:  # noqa: BLE001 - a raising API call yields nothing to compare; the stepper above already judged
             res["stats"]["api_raised_" + type(e).__name__] += 1
         if cfg["min_step"] >= 0.5:
             res["stats"]["probe.damped_delivery"] += 1
